@@ -19,7 +19,7 @@ from vlib.c12_util import make
 ID = 'C12'
 LEVEL = 'exploration'
 RULE = ('exhaustive grid (source length incl. unbounded, start, end, size, orphan, overlap) = '
-        'C11\'s grid with two more overlap values, every point rendered over a counting iterator '
+        'C11\'s grid with one more overlap value, every point rendered over a counting iterator '
         'and over one more lazy container kind (generator / lazy __getitem__ sequence / re-iterable) '
         'with rotating body variants (full previous/next variables, minimal, previous-batches, '
         'expr= form) and previous/next attribute modes; literal-attribute sample; seeded larger '
@@ -67,8 +67,8 @@ DISPLAYED = ('full', 'min', 'pb', 'expr', 'literal')
 GRID = {}
 for _tier in ('quick', 'thorough'):
     _g = dict(c11.GRID[_tier])
-    # the source length axis gains the unbounded source (None); two more overlap values so that
-    # overlap can exceed 2*size+orphan for the smallest batches
+    # the source length axis gains the unbounded source (None); one more overlap value so that
+    # overlap can exceed 2*size+orphan for the smallest batches in both tiers
     _g['length'] = list(_g['length']) + [None]
     _g['overlap'] = range(0, _g['overlap'][-1] + 2)
     GRID[_tier] = _g
@@ -125,6 +125,16 @@ class Env:
         self.sites.install()
         self.templates = {}
         self.literals = {}
+        # a real generator cannot log requests made after it is exhausted; once an observable
+        # container has shown a render that does not stop asking, generators are no longer fed
+        # (the verdict is already a violation; this only keeps the shard from hanging)
+        self.nonterminating = False
+
+    def skip(self, kind):
+        if self.nonterminating and kind == 'gen':
+            self.ctx.count('note:generator cases skipped after a non-terminating render was observed')
+            return True
+        return False
 
     def template(self, case):
         name = case['tmpl']
@@ -191,6 +201,8 @@ def log_detail(log, out):
 def batched(ctx, env, case, sample=False):
     tmpl, kind, n = case['tmpl'], case['kind'], case['n']
     st, en, sz, orp, ovl = case['start'], case['end'], case['size'], case['orphan'], case['overlap']
+    if env.skip(kind):
+        return
     eff = eff_size(st, en, sz)
     ms, me, only_end = c11.model(INF if n is None else n, st, en, sz, orp)
     if n is None:
@@ -209,9 +221,14 @@ def batched(ctx, env, case, sample=False):
     # -- termination / budget
     if log.over or isinstance(exc, PullBudgetExceeded):
         ctx.case(desc, True)
-        ctx.violation('pull budget (window end + size + orphan + 64 = %d) exhausted: the render does '
-                      'not stop pulling from %s source' % (budget, 'an unbounded' if n is None else 'the'),
-                      case, key='budget_' + key, detail=log_detail(log, out))
+        env.nonterminating = True
+        if n is None:
+            what = ('pull budget (window end + size + orphan + 64 = %d) exhausted: the render does not '
+                    'stop pulling from an unbounded source' % budget)
+        else:
+            what = ('logical budget exhausted on a source of %d elements (%d pulls, %d requests after '
+                    'exhaustion): the render does not stop asking' % (n, npull, log.stops))
+        ctx.violation(what, case, key='budget_' + key, detail=log_detail(log, out))
         return
     if exc is not None:
         ctx.case(desc, True)
@@ -288,6 +305,10 @@ def batched(ctx, env, case, sample=False):
                   'over' if slack < 0 else ('%d' % slack if slack < 8 else '8+'))
         if slack == 0:
             ctx.count('bound:reached exactly')
+        shape = ('start&end' if st > 0 and en > 0 else 'start only' if st > 0
+                 else 'end only' if en > 0 else 'neither')
+        ctx.table('parameter shape / slack (deciding cases)',
+                  '%s / %s' % (shape, 'over' if slack < 0 else 'tight' if slack == 0 else 'within'))
     mech = None
     if npull > bound:
         mech = classify(case, s, e, bound, log)
@@ -310,12 +331,20 @@ def batched(ctx, env, case, sample=False):
 # ---------------------------------------------------------------- one unbatched render
 def unbatched(ctx, env, case, sample=False):
     kind, n = case['kind'], case['n']
+    if env.skip(kind):
+        return
     log = PullLog(n, 3 * n + 64)
     out, exc = render(env, case, log)
     ctx.case((case['tmpl'], kind, n), n > 0)
     ctx.table('kind/template', '%s/%s' % (kind, case['tmpl']))
     ctx.count('unbatched:evaluations')
     key = case_key(case)
+    if log.over or isinstance(exc, PullBudgetExceeded):
+        env.nonterminating = True
+        ctx.violation('logical budget exhausted on a source of %d elements (%d pulls, %d requests after '
+                      'exhaustion): the unbatched render does not stop asking' % (n, len(log.pulls), log.stops),
+                      case, key='budget_' + key, detail=log_detail(log, out))
+        return
     if exc is not None:
         ctx.violation('unbatched render over a lazy sequence raised %s: %s'
                       % (type(exc).__name__, str(exc)[:160]), case, key='raise_' + key,
